@@ -17,6 +17,23 @@ structure FlatCfg (cfg : Cfg) : Prop where
 
 theorem FlatCfg.hash {cfg : Cfg} (h : FlatCfg cfg) : HashOnly cfg.fmt := h.data.com
 
+theorem getc_cons (src : Src) (c : UInt8) (r : List UInt8) (h : src.rest = c :: r) :
+    ∃ src1, getc src = (some c, src1) ∧ src1.rest = r := by
+  unfold getc
+  rw [h]
+  exact ⟨_, rfl, rfl⟩
+
+/-- `mpt_parse_option` entered behind a stored first character: the next character, whatever it is -/
+theorem optFirst_raw (f : Format) (e : List (List UInt8)) (l : List UInt8) (k : Bool) (fi : UInt8) (v cur ln : Nat)
+    (src : Src) (c : UInt8) (r : List UInt8) (hv : v ≠ 0) (hc10 : c ≠ 10) (h : src.rest = c :: r) :
+    ∃ src1, optFirst f (Stt e l k fi v cur ln) src = (some c, Stt e l k fi v cur ln, src1) ∧ src1.rest = r := by
+  obtain ⟨src1, hg, hr⟩ := getc_cons src c r h
+  refine ⟨src1, ?_, hr⟩
+  unfold optFirst
+  have h1 : ((Stt e l k fi v cur ln).valid != 0) = true := by simpa using hv
+  have h2 : (c == 10) = false := by simpa using hc10
+  simp only [h1, ↓reduceIte, hg, h2, Bool.false_eq_true]
+
 section option
 variable {cfg : Cfg} (hc : FlatCfg cfg)
 include hc
@@ -102,38 +119,62 @@ theorem option_rest (e : List (List UInt8)) (c0 : UInt8) (n' pre post tr rest : 
   have hos : (cfg.fmt.ostart != 0) = false := by rw [hc.ostart]; rfl
   cases n' with
   | nil =>
-    -- one character: `mpt_parse_nextvis` skips the blanks and delivers the `=`
-    obtain ⟨ln1, src1, hnv, hr1⟩ := nextvis_skip hc.hash pre 61 (post ++ valueText ov ++ tr ++ 10 :: rest)
-      (Stt e [c0] true fi 1 cur ln) src (visSkip_blanks pre hpre) (by decide) (by simpa using hsrc)
-    unfold parseOption
-    simp only [hnv, hos, Bool.false_and, Bool.false_eq_true, ↓reduceIte, addchar_keep]
-    have hb := optBody_assign hc e ([c0] ++ [61]) true fi 1 (Flag.option ||| Flag.name) ln1
-    simp only [hb, optExit]
-    have := nameThenData_line cfg hc.data e [c0] [] fi ln1 .MissingBuffer post tr rest ov src1 hn hnc hpost htr hval hr1
-    simpa using this
+    cases pre with
+    | nil =>
+      -- one character, the `=` directly behind it
+      obtain ⟨src1, hnv, hr1⟩ := optFirst_raw cfg.fmt e [c0] true fi 1 cur ln src 61
+        (post ++ valueText ov ++ tr ++ 10 :: rest) (by decide) (by decide) (by simpa using hsrc)
+      unfold parseOption
+      simp only [hnv, hos, Bool.false_and, Bool.false_eq_true, ↓reduceIte, addchar_keep]
+      have hb := optBody_assign hc e ([c0] ++ [61]) true fi 1 (Flag.option ||| Flag.name) ln
+      simp only [hb, optExit]
+      have := nameThenData_line cfg hc.data e [c0] [] fi ln .MissingBuffer post tr rest ov src1 hn hnc hpost htr hval hr1
+      simpa using this
+    | cons b0 pre' =>
+      -- one character, blanks, then the `=`: the blanks go through the loop
+      simp only [List.all_cons, Bool.and_eq_true] at hpre
+      have hb' : b0 = 32 ∨ b0 = 9 ∨ b0 = 11 ∨ b0 = 12 ∨ b0 = 13 := by simpa [isBlank, or_assoc] using hpre.1
+      have hb10 : b0 ≠ 10 := by rcases hb' with h | h | h | h | h <;> subst h <;> decide
+      obtain ⟨src1, hnv, hr1⟩ := optFirst_raw cfg.fmt e [c0] true fi 1 cur ln src b0
+        (pre' ++ 61 :: (post ++ valueText ov ++ tr ++ 10 :: rest)) (by decide) hb10 (by simpa using hsrc)
+      unfold parseOption
+      simp only [hnv, hos, Bool.false_and, Bool.false_eq_true, ↓reduceIte, addchar_keep]
+      rw [optBody_blank hc _ _ _ _ _ _ _ _ hpre.1]
+      simp only []
+      have hrun := run_opt_blanks hc e fi 1 (Flag.option ||| Flag.name) ln pre' ([c0] ++ [b0]) hpre.2
+      have hsave : (Stt e ([c0] ++ [b0] ++ pre') true fi 1 (Flag.option ||| Flag.name) ln).save 61
+          = Stt e ([c0] ++ [b0] ++ pre' ++ [61]) true fi 1 (Flag.option ||| Flag.name) ln := by
+        rw [save_stt _ _ _ _ _ _ _ _ (by decide)]; simp
+      obtain ⟨src2, hscan, hr2⟩ := scan_prefix_done (optStep cfg)
+        (fun s => OptExit.ret (if cfg.eof == -2 then Err.MissingData.code else Err.BadArgument.code) s) pre' 61
+        (post ++ valueText ov ++ tr ++ 10 :: rest) src1 _ _ _ (by simp [hr1]) hrun
+        (by simp only [optStep, hsave]; exact optBody_assign hc _ _ _ _ _ _ _)
+      simp only [hscan, optExit]
+      have := nameThenData_line cfg hc.data e [c0] (b0 :: pre') fi ln .MissingBuffer post tr rest ov src2 hn hnc
+        hpost htr hval hr2
+      simpa using this
   | cons c1 n'' =>
     simp only [List.all_cons, Bool.and_eq_true] at hn'
-    obtain ⟨h0, _, h35, _, _, _, _, _, _, _, _, _, hsp⟩ := nameChar_facts c1 hn'.1.2.2.1
-    have hvis : visible c1 = true := by simp [visible, h0, hsp, h35]
-    obtain ⟨ln1, src1, hnv, hr1⟩ := nextvis_skip hc.hash [] c1 (n'' ++ pre ++ 61 :: (post ++ valueText ov ++ tr ++ 10 :: rest))
-      (Stt e [c0] true fi 1 cur ln) src rfl hvis (by simpa using hsrc)
+    obtain ⟨h0, h10, h35, _, _, _, _, _, _, _, _, _, hsp⟩ := nameChar_facts c1 hn'.1.2.2.1
+    obtain ⟨src1, hnv, hr1⟩ := optFirst_raw cfg.fmt e [c0] true fi 1 cur ln src c1
+      (n'' ++ pre ++ 61 :: (post ++ valueText ov ++ tr ++ 10 :: rest)) (by decide) h10 (by simpa using hsrc)
     unfold parseOption
     simp only [hnv, hos, Bool.false_and, Bool.false_eq_true, ↓reduceIte, addchar_keep]
     rw [optBody_name hc _ _ _ _ _ _ _ _ hn'.1.2.2.1]
     simp only [Bool.true_or]
-    have h1 := run_opt_name hc e fi (Flag.option ||| Flag.name) ln1 n'' ([c0] ++ [c1]) hn'.1.2.2.2
-    have h2 := run_opt_blanks hc e fi (([c0] ++ [c1]) ++ n'').length (Flag.option ||| Flag.name) ln1 pre
+    have h1 := run_opt_name hc e fi (Flag.option ||| Flag.name) ln n'' ([c0] ++ [c1]) hn'.1.2.2.2
+    have h2 := run_opt_blanks hc e fi (([c0] ++ [c1]) ++ n'').length (Flag.option ||| Flag.name) ln pre
       (([c0] ++ [c1]) ++ n'') hpre
     have hrun := runSteps_append (optStep cfg) _ _ _ n'' pre h1 h2
-    have hsave : (Stt e ([c0] ++ [c1] ++ n'' ++ pre) true fi ([c0] ++ [c1] ++ n'').length (Flag.option ||| Flag.name) ln1).save 61
-        = Stt e ([c0] ++ [c1] ++ n'' ++ pre ++ [61]) true fi ([c0] ++ [c1] ++ n'').length (Flag.option ||| Flag.name) ln1 := by
+    have hsave : (Stt e ([c0] ++ [c1] ++ n'' ++ pre) true fi ([c0] ++ [c1] ++ n'').length (Flag.option ||| Flag.name) ln).save 61
+        = Stt e ([c0] ++ [c1] ++ n'' ++ pre ++ [61]) true fi ([c0] ++ [c1] ++ n'').length (Flag.option ||| Flag.name) ln := by
       rw [save_stt _ _ _ _ _ _ _ _ (by decide)]; simp
     obtain ⟨src2, hscan, hr2⟩ := scan_prefix_done (optStep cfg)
       (fun s => OptExit.ret (if cfg.eof == -2 then Err.MissingData.code else Err.BadArgument.code) s) (n'' ++ pre) 61
       (post ++ valueText ov ++ tr ++ 10 :: rest) src1 _ _ _ (by simp [hr1, List.append_assoc]) hrun
       (by simp only [optStep, hsave]; exact optBody_assign hc _ _ _ _ _ _ _)
     simp only [hscan, optExit]
-    have := nameThenData_line cfg hc.data e (c0 :: c1 :: n'') pre fi ln1 .MissingBuffer post tr rest ov src2 hn hnc
+    have := nameThenData_line cfg hc.data e (c0 :: c1 :: n'') pre fi ln .MissingBuffer post tr rest ov src2 hn hnc
       hpost htr hval hr2
     simpa using this
 
@@ -508,12 +549,6 @@ abbrev cfgS (fs fo : Nat) : Cfg := { fmt := { sstart := 91, send := 93 }, sect :
 theorem cfgS_desc0 : parseFormat (Style.desc .sep) = ((cfgS 0 0).fmt, 32) := by decide +kernel
 theorem cfgS_desc : parseFormat (Style.desc .sep) = ((cfgS fs fo).fmt, 32) := cfgS_desc0
 theorem flatCfg_S : FlatCfg (cfgS fs fo) := ⟨rfl, rfl, ⟨rfl, rfl, rfl⟩, rfl⟩
-
-theorem getc_cons (src : Src) (c : UInt8) (r : List UInt8) (h : src.rest = c :: r) :
-    ∃ src1, getc src = (some c, src1) ∧ src1.rest = r := by
-  unfold getc
-  rw [h]
-  exact ⟨_, rfl, rfl⟩
 
 theorem sepBody_name (e : List (List UInt8)) (l : List UInt8) (k : Bool) (fi : UInt8) (v cur ln : Nat) (c : UInt8)
     (hn : nameChar c = true) :
